@@ -8,6 +8,7 @@ import (
 	"math"
 	"sort"
 
+	"github.com/xuperchain/xupercore/bcs/ledger/xledger/state/utxo/txhash"
 	pb "github.com/xuperchain/xupercore/bcs/ledger/xledger/xldgpb"
 	"github.com/xuperchain/xupercore/lib/crypto/hash"
 	"github.com/xuperchain/xupercore/lib/utils"
@@ -110,11 +111,37 @@ func encodeJustify(buf *bytes.Buffer, block *pb.InternalBlock) error {
 // VerifyMerkle
 func VerifyMerkle(block *pb.InternalBlock) error {
 	blockid := block.Blockid
+	// tx_count is what the block id covers, the transaction list must have exactly that length
+	// (a duplicated last transaction gives the same merkle root)
+	if int(block.TxCount) != len(block.Transactions) {
+		return errors.New("tx count is wrong, block id:" + utils.F(blockid))
+	}
+	// the leaves of the tree are the stated txids, so each of them must be the hash of its transaction,
+	// otherwise the content of a transaction can be altered without changing the root
+	for _, tx := range block.Transactions {
+		if tx.GetModifyBlock() != nil && tx.GetModifyBlock().Marked {
+			continue // content of a marked transaction has been erased on purpose, txid is kept
+		}
+		txid, err := txhash.MakeTransactionID(tx)
+		if err != nil || !bytes.Equal(txid, tx.Txid) {
+			return errors.New("txid is not the hash of the transaction, block id:" + utils.F(blockid) + ",txid:" + utils.F(tx.Txid))
+		}
+	}
 	merkleTree := MakeMerkleTree(block.Transactions)
 	if len(merkleTree) > 0 {
 		merkleRoot := merkleTree[len(merkleTree)-1]
 		if !(bytes.Equal(merkleRoot, block.MerkleRoot)) {
 			return errors.New("merkle root is wrong, block id:" + utils.F(blockid) + ",block merkle root:" + utils.F(block.MerkleRoot) + ", make merkle root:" + utils.F(merkleRoot))
+		}
+		// the ledger stores merkle_tree[:tx_count] as the transaction list of the block and reads it back
+		// when the block is queried, so the carried tree must be the real one, not only its root
+		if len(block.MerkleTree) != len(merkleTree) {
+			return errors.New("merkle tree is wrong, block id:" + utils.F(blockid))
+		}
+		for i := range merkleTree {
+			if !bytes.Equal(merkleTree[i], block.MerkleTree[i]) {
+				return errors.New("merkle tree is wrong, block id:" + utils.F(blockid))
+			}
 		}
 		return nil
 	} else {
